@@ -2,6 +2,7 @@ package main
 
 import (
 	"fmt"
+	"math"
 	"math/big"
 	"math/rand"
 	"strings"
@@ -281,6 +282,33 @@ func checkC02(c *core.Ctx) {
 		c.Count("hugenumeral_cases", 1)
 	})
 
+	// machine-word traps: values over denominators of every bit length from 30 to 64 (powers of two and odd numbers),
+	// with numerators chosen so that the instance lasts between a fraction of a tick and some thousand ticks - as one
+	// fraction or split over the same denominator. Any fast path through float64, int64 or uint64 arithmetic has its
+	// wrap-around or its 53-bit rounding somewhere in this family; the expectation is exact (math/big).
+	c.Stream("wordsizes", c.N(4000, 60000), func(i int, r *rand.Rand) {
+		v, bits := wordSizeValues(r, i)
+		var p model.Piece
+		switch r.Intn(3) {
+		case 0:
+			p.Inst = []model.Instance{{Chord: chord(r), Values: v}, {Chord: chord(r), Values: one()}}
+		case 1:
+			p.Inst = []model.Instance{{Values: v}, {Chord: chord(r), Values: one(), Meta: map[string]string{"txt": "after"}}}
+		default:
+			p.Inst = []model.Instance{{Chord: chord(r), Values: one()}, {Chord: chord(r), Values: v}, {Values: v}, {Chord: chord(r), Values: one(), BPM: 90}}
+		}
+		tracks := 1 + r.Intn(3)
+		for _, l := range model.Lengths(960, v) {
+			if l == 0 {
+				// a chord of no length and the next chord strike at the same tick: only the order of the events
+				// of a single track tells them apart
+				tracks = 1
+			}
+		}
+		judgeTiming(c, "wordsizes", i, p, model.Flags{Track: tracks}, writeOpts{}, "")
+		c.Seen("denominator_bits", fmt.Sprint(bits))
+	})
+
 	// sums of ordinary fractions whose exact tick count misses k+1/2 by less than 1e-12 (found by searching sums of
 	// three-digit denominators): float64 summation lands on or past the half, exact arithmetic does not
 	nearSums := [][]model.Frac{
@@ -322,6 +350,63 @@ func checkC02(c *core.Ctx) {
 		c.Extra("nearhalf_example_exact_ticks", x.FloatString(20))
 		c.Count("nearhalf_cases", 1)
 	})
+}
+
+// wordSizeValues draws the durations of one instance from the family described at the `wordsizes` stream of C02.
+func wordSizeValues(r *rand.Rand, i int) ([]model.Frac, uint) {
+	// two thirds of the cases around the word sizes (48..64 bits), the rest from 30 bits on
+	bits := uint(48 + i%17)
+	if i%3 == 2 {
+		bits = uint(30 + (i/3)%18)
+	}
+	var den uint64
+	switch r.Intn(3) {
+	case 0:
+		den = uint64(1) << (bits - 1) // a power of two: exactly representable in float64
+		if bits == 64 {
+			den = 1 << 63
+		}
+	case 1:
+		den = uint64(1)<<(bits-1) | uint64(r.Int63())&(uint64(1)<<(bits-1)-1) | 1 // odd, exactly that many bits
+	default:
+		den = (uint64(1)<<(bits-1) | uint64(r.Int63())&(uint64(1)<<(bits-1)-1)) &^ 0x3f // a multiple of 64: shares factors with 960
+		if den == 0 {
+			den = 1 << (bits - 1)
+		}
+	}
+	// target length in ticks, log-uniform over 0.3 .. 6000, moved next to a half tick in a third of the cases
+	t := 0.3 * math.Pow(20000, r.Float64())
+	if r.Intn(2) == 0 {
+		t = 0.05 + 3*r.Float64() // a few ticks at most: the remainder is nearly the whole numerator
+		if r.Intn(2) == 0 {
+			t = 0.3 + 0.9*r.Float64() // less than a tick and a bit: zero or one
+		}
+	}
+	if r.Intn(3) == 0 {
+		t = math.Floor(t) + 0.5
+	}
+	if i%4 == 3 {
+		// directed at the word boundaries: an odd denominator just inside 32, 33, 53, 54, 63 or 64 bits and a
+		// length around one tick, so that the remainder of the division is nearly as large as the denominator
+		bits = []uint{32, 33, 53, 54, 63, 64}[(i/4)%6]
+		den = uint64(1)<<(bits-1) | uint64(r.Int63())&(uint64(1)<<(bits-1)-1) | 1
+		t = 0.4 + 0.7*r.Float64()
+	}
+	nf := new(big.Float).Quo(new(big.Float).Mul(new(big.Float).SetUint64(den), big.NewFloat(t)), big.NewFloat(960))
+	num, _ := nf.Uint64()
+	num += uint64(r.Intn(3))
+	if num == 0 {
+		num = 1
+	}
+	v := []model.Frac{{Num: num, Den: den}}
+	if r.Intn(3) == 0 && num > 2 {
+		a := 1 + uint64(r.Int63n(int64(min(num-1, 1<<62))))
+		v = []model.Frac{{Num: a, Den: den}, {Num: num - a, Den: den}}
+	}
+	if r.Intn(4) == 0 {
+		v = append([]model.Frac{{Num: uint64(1 + r.Intn(4)), Den: 1}}, v...)
+	}
+	return v, bits
 }
 
 // nearHalfValues builds fractions num/den with 960*num/den = k + 1/2 -/+ eps for tiny eps.
